@@ -172,11 +172,12 @@ class Plan:
 class Session:
     """State shared by the transports of one instrument instance."""
     owner_thread: int
-    plan: Optional[Plan] = None
+    faults: dict = field(default_factory=dict)   # call number (1-based) -> fault kind   (any number of faults)
+    fired_list: list = field(default_factory=list)           # [(attr, op, site, k, kind)] faults injected so far
     n: int = 0                                   # transport calls so far (since last reset)
     calls: list = field(default_factory=list)    # (attr, op, site, outcome)  outcome: 'ok' | 'exc:<kind>' | 'junk' | 'refused'
     fired: Optional[tuple] = None                # (attr, op, site) where the fault was injected
-    open_failed_sticky: set = field(default_factory=set)   # transports whose link cannot be opened (link-open fault persists)
+    open_failed_sticky: dict = field(default_factory=dict)  # attr -> kind: the link cannot be opened (the fault persists)
     device_io: int = 0                           # calls that reached the device (link open, accepted by the transport)
     link_opens: dict = field(default_factory=dict)          # attr -> number of successful link openings
     link_closes: dict = field(default_factory=dict)
@@ -185,12 +186,15 @@ class Session:
     rx: dict = field(default_factory=dict)       # attr -> bytearray of queued device replies (scripted devices)
     written: list = field(default_factory=list)
 
-    def reset_counters(self, plan: Optional[Plan] = None):
-        self.plan = plan
+    def reset_counters(self, plan=None):
+        """plan: None | Plan | list of Plans"""
+        plans = [] if plan is None else ([plan] if isinstance(plan, Plan) else list(plan))
+        self.faults = {p.k: p.kind for p in plans}
         self.n = 0
         self.calls = []
         self.fired = None
-        self.open_failed_sticky = set()
+        self.fired_list = []
+        self.open_failed_sticky = {}
 
 
 def _site(sess: Session):
@@ -231,16 +235,20 @@ def make_fake_transport_class():
             if s.n > IO_BUDGET:
                 raise Budget(f"more than {IO_BUDGET} transport calls")
             site = _site(s)
-            p = s.plan
-            if p is not None and s.n == p.k:
-                if p.kind in EXC_KINDS:
-                    s.fired = (self.attr, op, site)
-                    s.calls.append((self.attr, op, site, "exc:" + p.kind))
+            kind = s.faults.get(s.n)
+            if kind is not None:
+                if kind in EXC_KINDS:
+                    s.fired = s.fired or (self.attr, op, site)
+                    s.fired_list.append((self.attr, op, site, s.n, kind))
+                    s.calls.append((self.attr, op, site, "exc:" + kind))
                     if op == "open":
-                        s.open_failed_sticky.add(self.attr)
-                    raise make_exc(p.kind)
-                if p.kind == "junk" and reads:
-                    s.fired = (self.attr, op, site)
+                        s.open_failed_sticky[self.attr] = kind
+                    if op == "close":
+                        return "fail-after-release"
+                    raise make_exc(kind)
+                if kind == "junk" and reads:
+                    s.fired = s.fired or (self.attr, op, site)
+                    s.fired_list.append((self.attr, op, site, s.n, kind))
                     s.calls.append((self.attr, op, site, "junk"))
                     s.device_io += 1
                     return "junk"
@@ -258,25 +266,28 @@ def make_fake_transport_class():
             self._check_is_open()
 
         # -- QMI_Transport API ----------------------------------------------
+        # open()/close() go through the base-class implementation (QMI_Transport.open: refuse if open, call
+        # _open_transport(), then set the flag; QMI_Transport.close: refuse if closed, clear the flag) exactly like the
+        # real transports, whose close() calls the base class first and releases the OS resource afterwards.
         def _open_transport(self) -> None:
-            pass
+            if self.attr in self._sess.open_failed_sticky:
+                # the link-open fault persists for the rest of this open() (the device is not there)
+                self._sess.n += 1
+                if self._sess.n > IO_BUDGET:
+                    raise Budget(f"more than {IO_BUDGET} transport calls")
+                kind = self._sess.open_failed_sticky[self.attr]
+                self._sess.calls.append((self.attr, "open", _site(self._sess), "exc:" + kind))
+                raise make_exc(kind)
+            self._call("open")
 
         def open(self) -> None:
             if self._foreign():
                 raise QMI_InvalidOperationException("C19 fake transport: call from a foreign thread refused")
             if self._is_open:
                 self._sess.calls.append((self.attr, "open", _site(self._sess), "refused"))
-                raise QMI_InvalidOperationException(
-                    "Operation not allowed on opened transport {}".format(type(self).__name__))
-            if self.attr in self._sess.open_failed_sticky:
-                # the link-open fault persists for the rest of this open() (the device is not there)
-                self._sess.n += 1
-                if self._sess.n > IO_BUDGET:
-                    raise Budget(f"more than {IO_BUDGET} transport calls")
-                self._sess.calls.append((self.attr, "open", _site(self._sess), "exc:" + self._sess.plan.kind))
-                raise make_exc(self._sess.plan.kind)
-            self._call("open")
             super().open()
+            if not self._is_open:
+                return
             self._sess.link_opens[self.attr] = self._sess.link_opens.get(self.attr, 0) + 1
             if self._sess.script is not None:
                 self._sess.script.link_opened(self._sess, self.attr)
@@ -286,9 +297,13 @@ def make_fake_transport_class():
                 raise QMI_InvalidOperationException("C19 fake transport: call from a foreign thread refused")
             if not self._is_open:
                 self._sess.calls.append((self.attr, "close", _site(self._sess), "refused"))
-            super().close()
-            self._sess.calls.append((self.attr, "close", _site(self._sess), "ok"))
+            super().close()              # base class: refuses if closed, clears the open flag
+            if self._is_open:
+                return                   # (only if the base class no longer clears the flag)
             self._sess.link_closes[self.attr] = self._sess.link_closes.get(self.attr, 0) + 1
+            r = self._call("close")      # releasing the OS resource is the part that can fail
+            if r == "fail-after-release":
+                raise make_exc(self._sess.fired_list[-1][4])
 
         def _reply(self, op: str, arg) -> bytes:
             if self._sess.script is not None:
@@ -753,6 +768,7 @@ class Obs:
     fired: Optional[tuple]
     device_io: int
     first_exc: Optional[tuple] = None   # (code, lineno, kind, text) of the first exception seen in a traced frame
+    events: list = field(default_factory=list)   # ("line", code, lineno) / ("exc", code, lineno, kind) in order
 
 
 def call_traced(b: Built, method: str, maps: list, *args) -> Obs:
@@ -762,13 +778,18 @@ def call_traced(b: Built, method: str, maps: list, *args) -> Obs:
     lines: list = []
 
     first_exc: list = []
+    events: list = []
 
     def local(frame, event, arg):
         if event == "line":
             lines.append((frame.f_code, frame.f_lineno))
-        elif event == "exception" and not first_exc:
-            first_exc.append((frame.f_code, frame.f_lineno, kind_of_exception(arg[1]) if arg[1] is not None else "other",
-                              f"{getattr(arg[0], '__name__', arg[0])}: {str(arg[1])[:100]}"))
+            events.append(("line", frame.f_code, frame.f_lineno))
+        elif event == "exception":
+            k = kind_of_exception(arg[1]) if arg[1] is not None else "other"
+            events.append(("exc", frame.f_code, frame.f_lineno, k))
+            if not first_exc:
+                first_exc.append((frame.f_code, frame.f_lineno, k,
+                                  f"{getattr(arg[0], '__name__', arg[0])}: {str(arg[1])[:100]}"))
         return local
 
     def tracer(frame, event, arg):
@@ -797,7 +818,7 @@ def call_traced(b: Built, method: str, maps: list, *args) -> Obs:
     except Exception:
         flag = bool(getattr(b.inst, "_is_open", False))
     return Obs(result, exc, flag, {a: bool(t._is_open) for a, t in b.fakes.items()}, lines, list(sess.calls),
-               sess.fired, sess.device_io - io0, first_exc[0] if first_exc else None)
+               sess.fired, sess.device_io - io0, first_exc[0] if first_exc else None, events)
 
 
 def classify(flag: bool, links: dict) -> Optional[str]:
